@@ -105,3 +105,73 @@ def sample_frames(kind):
                 out.append((ts, msg[0], ic[0] if ic else ""))
     _SAMPLES[kind] = out
     return out
+
+
+# ---- constants mined from the source under test (a fuzzing dictionary) ----
+_DICT = {}
+
+
+def source_dictionary(sub=""):
+    """Byte strings that occur as literals in the working tree's library source (optionally only files whose path contains
+    `sub`): lists / tuples of small integers, bytes literals, hex-looking strings, integers above 255 (big-endian).  A special
+    case keyed on a magic value can only be written with that value in the source; planting the mined values into the
+    generated inputs - at every field position - makes such special cases reachable without knowing them in advance.
+    Read from /repo's current working tree at run time (VERIF_REPO for scratch trees)."""
+    if sub in _DICT:
+        return _DICT[sub]
+    import ast
+    import re
+    toks = set()
+    root = os.path.join(REPO, "src", "pyModeS")
+    for d, _, files in os.walk(root):
+        for fn in files:
+            path = os.path.join(d, fn)
+            if sub not in path:
+                continue
+            try:
+                src = open(path, encoding="utf-8", errors="replace").read()
+            except OSError:
+                continue
+            if fn.endswith(".py"):
+                try:
+                    tree = ast.parse(src)
+                except SyntaxError:
+                    continue
+                for node in ast.walk(tree):
+                    if isinstance(node, (ast.List, ast.Tuple)) and 2 <= len(node.elts) <= 16 and all(
+                            isinstance(x, ast.Constant) and isinstance(x.value, int) and not isinstance(x.value, bool) and 0 <= x.value <= 255
+                            for x in node.elts):
+                        toks.add(bytes(x.value for x in node.elts))
+                    elif isinstance(node, ast.Constant):
+                        v = node.value
+                        if isinstance(v, bytes) and 2 <= len(v) <= 16:
+                            toks.add(v)
+                        elif isinstance(v, str) and 4 <= len(v) <= 32 and len(v) % 2 == 0 and re.fullmatch(r"[0-9a-fA-F]+", v):
+                            toks.add(bytes.fromhex(v))
+                        elif isinstance(v, int) and not isinstance(v, bool) and 255 < v < (1 << 64):
+                            toks.add(v.to_bytes((v.bit_length() + 7) // 8, "big"))
+            elif fn.endswith(".pyx"):
+                for m in re.finditer(r"0[xX]([0-9a-fA-F]{3,16})\b", src):
+                    h = m.group(1)
+                    toks.add(bytes.fromhex(h if len(h) % 2 == 0 else "0" + h))
+                for m in re.finditer(r"[\"']([0-9a-fA-F]{4,32})[\"']", src):
+                    if len(m.group(1)) % 2 == 0:
+                        toks.add(bytes.fromhex(m.group(1)))
+    out = sorted(t for t in toks if any(t))
+    _DICT[sub] = out
+    return out
+
+
+def plant(rng, frame, lo=0, hi=None, sub=""):
+    """copy of `frame` (list of byte values) with one mined constant written at a random byte offset inside [lo, hi)"""
+    d = source_dictionary(sub)
+    f = list(frame)
+    if not d:
+        return f
+    hi = len(f) if hi is None else hi
+    t = d[rng.randrange(len(d))]
+    if len(t) > hi - lo:
+        t = t[:hi - lo]
+    at = rng.randrange(lo, hi - len(t) + 1)
+    f[at:at + len(t)] = list(t)
+    return f
